@@ -597,8 +597,12 @@ func TestCheckMerge(t *testing.T) {
 		if c.ViaQuery {
 			cls = append(cls, "via-query")
 		}
+		isBig := c.Left.IsBig() || c.Right.IsBig()
+		if isBig {
+			cls = append(cls, "big:>=20-people")
+		}
 		s.Eval(harness.JSON(c), nt, cls...)
-		if nt {
+		if nt && !isBig {
 			s.MaybeSample(c)
 		}
 		if fl != nil && s.Report(c, fl) {
